@@ -686,3 +686,27 @@ pub fn rq_deinterleave(symbols: &[Vec<u8>], sizes: &[usize]) -> Vec<u8> {
     }
     block
 }
+
+
+/// The same packet in another LEGAL encoding (RFC 5651): nothing a receiver acts on changes.
+/// mode bit 0: the widest TSI / TOI fields the flags allow (48-bit TSI, 112-bit TOI); bit 1: a 128-bit congestion control
+/// field; bit 2: header extensions a receiver must skip - EXT_NOP (one and two words), an unknown variable-length
+/// extension, an unknown fixed-length one - ahead of the EXT_FTI.
+pub fn reencode(bytes: &[u8], mode: u8) -> Option<Vec<u8>> {
+    let d = decode(bytes).ok()?;
+    let mut b = to_build(&d);
+    if mode & 1 != 0 {
+        b.tsi_len = 6;
+        b.toi_len = 14;
+    }
+    if mode & 2 != 0 {
+        b.cci_words = 4;
+    }
+    if mode & 4 != 0 {
+        b.extra_exts.push(vec![0, 1, 0, 0]);
+        b.extra_exts.push(vec![0, 2, 0xAA, 0xBB, 1, 2, 3, 4]);
+        b.extra_exts.push(vec![100, 2, 9, 9, 9, 9, 9, 9]);
+        b.extra_exts.push(vec![250, 1, 2, 3]);
+    }
+    Some(encode(&b))
+}
